@@ -39,8 +39,42 @@ def h_acceptance(eng):
     eng.prove("accept.codegen_library_for_this_os", z3.Implies(w.codegen, z3.BoolVal(w.library_os == w.os_name)))
 
 
-HARNESSES = [("api.load_model/acceptance", h_acceptance)]
-EXPECTED_COVER = {"accept.raises", "accept.returns"}
+def h_save_then_load(eng):
+    """History: save_model writes the cache at time T from the sources as they were; then any subset of the Modelica files is edited
+    (hypothesis of the statement: an edited or added file gets an mtime later than T; an untouched file keeps its mtime, which may
+    itself be earlier or LATER than T); then load_model runs on exactly what save_model wrote.  (P) it accepts only if no file was
+    edited.  The REAL save_model and the REAL load_model are both executed; nothing is assumed about what the cache dictionary holds."""
+    w = A.make_world(eng, with_db=False)
+    A.install(eng, w)
+    model, objs = A.make_model(eng, {"states": 1, "der_states": 1})
+    rec = A.run_save(eng, w, model, w.current_options)
+    if rec["raised"] is not None or len(rec["dumps"]) != 1:
+        eng.prove("history.save_completes", False, raised=rec["raised"])
+        return
+    eng.prove("history.save_completes", True)
+    db = rec["dumps"][0][0]
+    T = w.cache_mtime
+    changed = {}
+    for path in list(w.mtimes):
+        ch = eng.input("edited:%s" % path, eng.fresh_bool("edited"))
+        new = eng.input("mtime_at_load:%s" % path, eng.fresh_int("mt_load"))
+        eng.assume(z3.If(ch, new > T, new == w.mtimes[path]))
+        w.mtimes[path] = new
+        changed[path] = ch
+    eng.assume(z3.Not(w.cache_absent))
+    w.db, w.pickle_outcome = db, None
+    out, val, exc = A.run_load(eng, w)
+    if out == "raises":
+        eng.cover("history.rejects")
+        eng.prove("history.rejection_is_a_cache_error", z3.BoolVal(val in ("InvalidCacheError", "FileNotFoundError")), exc=val)
+        return
+    eng.cover("history.accepts")
+    edited = [c for path, c in changed.items() if path.endswith(".mo")]
+    eng.prove("history.cache_written_before_an_edit_is_not_accepted_after_it", z3.Not(z3.Or(edited)) if edited else True)
+
+
+HARNESSES = [("api.load_model/acceptance", h_acceptance), ("api.save_model ; edits ; api.load_model", h_save_then_load)]
+EXPECTED_COVER = {"accept.raises", "accept.returns", "history.rejects", "history.accepts"}
 BOUNDED = True
 LEVEL = "proof"
 TRUSTED = ["pyvc VC generator", "z3 5.1.0",
@@ -55,7 +89,7 @@ ASSUMPTIONS = [
 EXPLANATION = "Acceptance condition of load_model for all mtimes, versions and option values."
 MANIFEST = {
     "category": "proof",
-    "text": "The real load_model is executed symbolically for every combination of file modification times, stored/current version and stored/current option values over enumerated folder shapes: a normal return implies no .mo file of the model or current library folders is newer than the cache, the versions are equal and the options are equal. The library_folders option is excluded from the comparison by the code; this is reported as a known finding (a cache compiled against library folder A is reused for library folder B). A bounded replay drives the real transfer_model through edit / add / option-change / version-change histories with explicit mtimes.",
+    "text": "The real load_model is executed symbolically for every combination of file modification times, stored/current version and stored/current option values over enumerated folder shapes: a normal return implies no .mo file of the model or current library folders is newer than the cache, the versions are equal and the options are equal. A composed history -- the real save_model writes the cache, any subset of the files is edited (later mtime than the cache; untouched files keep theirs, earlier or later than the cache), the real load_model reads exactly what was written -- is accepted only if nothing was edited. The library_folders option is excluded from the comparison by the code; this is reported as a known finding (a cache compiled against library folder A is reused for library folder B). A bounded replay drives the real transfer_model through edit / add / option-change / version-change histories with explicit mtimes.",
     "note": "Assumed: os.walk/fnmatch/getmtime contracts, the statement's hypothesis that edits get later mtimes; folder shapes enumerated; equality of the compiled model itself rests on C19.",
     "technique": "contract-based deductive verification: whole-function symbolic execution with a symbolic file-system world, z3",
 }
